@@ -270,26 +270,39 @@ func (c *connection) sendWaitReply(callerCtx context.Context, msg Message) (Mess
 	timer := pool.GetTimer(timeout)
 	defer pool.PutTimer(timer)
 
-	select {
-	case res := <-ch:
-		return res.msg, res.err
-	case <-timer.C:
-		// Protocol timeout: T3 (data) — a transaction failure.
-		if isData {
-			c.metrics.incDataMsgErr()
-
-			if c.cfg.Load().autoS9F9 {
-				c.sendAutoS9F9(msg)
+	for {
+		select {
+		case res := <-ch:
+			// Replies are correlated by System Bytes only, and data and control transactions share
+			// one System Bytes space. A routed message of the OTHER kind (a control response for a
+			// data transaction, or a data secondary for a control transaction) is not this
+			// transaction's reply: handing it back would complete a W-bit data send with a nil
+			// reply and a nil error. Discard it and keep waiting for the real reply or the timer.
+			if res.err == nil {
+				if _, replyIsData := res.msg.(*DataMessage); replyIsData != isData {
+					continue
+				}
 			}
-		}
 
-		return nil, timeoutErr
-	case <-e.ctx.Done():
-		// Connection teardown/drop — a lifecycle event, NOT a data transaction error, so a
-		// normal Close mid-transaction never inflates the cumulative error counter.
-		return nil, ErrConnClosed
-	case <-callerCtx.Done():
-		return nil, callerCtx.Err()
+			return res.msg, res.err
+		case <-timer.C:
+			// Protocol timeout: T3 (data) — a transaction failure.
+			if isData {
+				c.metrics.incDataMsgErr()
+
+				if c.cfg.Load().autoS9F9 {
+					c.sendAutoS9F9(msg)
+				}
+			}
+
+			return nil, timeoutErr
+		case <-e.ctx.Done():
+			// Connection teardown/drop — a lifecycle event, NOT a data transaction error, so a
+			// normal Close mid-transaction never inflates the cumulative error counter.
+			return nil, ErrConnClosed
+		case <-callerCtx.Done():
+			return nil, callerCtx.Err()
+		}
 	}
 }
 
